@@ -487,6 +487,60 @@ def rule_u7(repo, col):
     col.floor("U7.scenarios", n, 7)
 
 
+def rule_u8(repo, col):
+    """export path: a child literal of a node is SIGNED; a per-node table (a list indexed by node id: relevant, processed, ...) is indexed with abs(child), never with the raw
+    literal (a negative index silently reads the flag of another node from the end of the list)"""
+    from ..index import ClassInfo
+
+    c = repo.cls("problog.formula", "LogicFormula")
+    mro = [k for k in repo.mro(c) if isinstance(k, ClassInfo)]
+
+    def method(name):
+        for k in mro:
+            if name in k.methods:
+                return k.methods[name]
+        return None
+
+    todo, seen = ["to_prolog"], {}
+    while todo:
+        nm = todo.pop()
+        if nm in seen:
+            continue
+        f = method(nm)
+        if f is None:
+            continue
+        seen[nm] = f
+        for x in ast.walk(f.node):
+            if isinstance(x, ast.Call) and isinstance(x.func, ast.Attribute) and norm(x.func.value) == "self" and x.func.attr not in seen:
+                todo.append(x.func.attr)
+    n = 0
+    for nm, f in sorted(seen.items()):
+        tables = set(p_ for p_ in f.params if p_ in ("relevant", "processed"))
+        for st in ast.walk(f.node):
+            if isinstance(st, ast.Assign) and isinstance(st.targets[0], ast.Name) and isinstance(st.value, ast.BinOp) and isinstance(st.value.op, ast.Mult) and isinstance(st.value.left, ast.List):
+                tables.add(st.targets[0].id)
+        if not tables:
+            continue
+        signed = set()
+        for x in ast.walk(f.node):
+            if isinstance(x, ast.For) and isinstance(x.target, ast.Name) and norm(x.iter).endswith(".children"):
+                signed.add(x.target.id)
+            if isinstance(x, (ast.GeneratorExp, ast.ListComp, ast.SetComp)):
+                for g in x.generators:
+                    if isinstance(g.target, ast.Name) and norm(g.iter).endswith(".children"):
+                        signed.add(g.target.id)
+        for x in ast.walk(f.node):
+            if isinstance(x, ast.Subscript) and isinstance(x.value, ast.Name) and x.value.id in tables and isinstance(x.slice, ast.Name) and x.slice.id in signed:
+                n += 1
+                col.fail("U8", f.module, x, "%s indexes the per-node table `%s` with the child literal `%s` as it stands: children are signed literals, and %s[-k] is the flag of the node "
+                         "at position len-k, not of node k - a negated sub-goal can thus stay unmarked and its clauses are missing from the exported program" % (f.qualname, x.value.id, x.slice.id, x.value.id),
+                         construct="%s: %s[%s] with a signed literal" % (f.qualname, x.value.id, x.slice.id), function=f.qualname)
+            elif isinstance(x, ast.Subscript) and isinstance(x.value, ast.Name) and x.value.id in tables and isinstance(x.slice, ast.Call) and dotted(x.slice.func) == "abs":
+                n += 1
+                col.ok("U8", f.module, x, "%s[abs(..)]" % x.value.id, construct="%s: %s" % (f.qualname, norm(x)), function=f.qualname)
+    col.floor("U8.table_subscripts", n, 3)
+
+
 def run(repo, col):
     col.rule("U1", "DIMACS writer: every internal clause emitted exactly once, no weight column, header counts")
     col.rule("U2", "to_dimacs text format")
@@ -502,3 +556,5 @@ def run(repo, col):
     rule_u6(repo, col)
     col.rule("U7", "to_prolog: deterministic query / evidence atoms keep their truth value")
     rule_u7(repo, col)
+    col.rule("U8", "per-node tables are indexed with abs(child)")
+    rule_u8(repo, col)
